@@ -13,7 +13,7 @@ def add(i, engine, cat, tech, text, note, ref):
 FAMILIES = (" Besides depth-bounded histories over small alphabets the scopes contain explicit families enumerated completely: MS-S scale (classes of 20..129 entries, "
             "20..301 class lines, inline depth 31..100, names of 127..65537 bytes), MS-U character classes (105 special characters in every kind of name; sort pool pairs/triples; "
             "synthetic-file name shapes), MS-R name relations, MS-S(f) sorted runs (one method with 16..100 ascending disjoint ranges plus one irregular entry - inverted, enclosing, range-less, 0:0, duplicate - at every position), "
-            "MS-M R8 metadata comments (rewriteFrame / synthesized / outline / outlineCallsite / residualsignature at column 0 and indented, at every position of a small mapping), and the 7 corpus files.")
+            "MS-M R8 metadata comments (rewriteFrame / synthesized / outline / outlineCallsite / residualsignature at column 0 and indented, at every position of a small mapping), MS-V late first member (48..60 member-less class / header / noise lines in front of the first class with members), "MS-W file-level headers (compiler R8 / D8 / ProGuard, compiler_version, min_api, pg_map_id ... before classes whose members are not ordered by obfuscated name), and the 7 corpus files. Q(M) also contains the format's magic file name as the frame's own file, ', '-spelled parameter lists, and known names with module prefixes / a '$$' suffix.")
 MODEL_NOTE = ("Trusted: rustc/std; the reference model pgmc/src/model.rs (a re-statement of the property text evaluated on the "
               "generating AST - the oracle contains no parser); the AST printer. Bounded: alphabets and depths listed in the evidence "
               "file; data values outside the alphabets are not explored.")
@@ -47,24 +47,24 @@ add("C10", "E1 mapspace", "model_checking", "bounded-exhaustive exploration of (
     "Trusted: rustc/std; the vendored snapshot /verif/pinned as 'the pinned release'.", "DESIGN.md §4 C10")
 add("C11", "E4 bytefault", "fault_enumeration", "exhaustive enumeration of crash points (every strict prefix) and single-field header edits of every base file, real parser, layout-derived oracle",
     "Every strict prefix of every base cache file (tens of thousands of files from exhaustive mapping scopes) and every single-field edit of the 24-byte header are parsed by the real parser; the expected verdict "
-    "(error kind, in precedence order) is computed from the documented layout by the independent decoder; an accepted prefix must answer the whole query universe like the full file. The prefix clause is also applied with the file in a buffer at an address = 4 (mod 8) (the parser asks for 4-byte alignment only).",
+    "(error kind, in precedence order) is computed from the documented layout by the independent decoder; an accepted prefix must answer the whole query universe like the full file. The prefix clause is also applied with the file in a buffer at an address = 4 (mod 8) (the parser asks for 4-byte alignment only). Foreign buffers that are not edited caches (mapping texts, 16 other formats' signatures, constant bytes): >= 24 bytes and neither magic => the format error.",
     "Trusted: rustc/std; layout arithmetic in pgmc/src/dec.rs. Error kinds are compared in 8-aligned buffers. Prefixes shorter than the header may be rejected with any error kind.", "DESIGN.md §4 C11")
 add("C12", "E4 bytefault", "fault_enumeration", "deviation-bounded exhaustive corruption of valid cache files (bound 1 on all base files, bound 2 on a few), real parser and full query universe on every accepted buffer",
     "Every 32-bit field set to every boundary value, every single-bit flip, every string-section byte edit, every adjacent record swap/duplication of every base file (deviation bound 1), and all pairs of field edits on a few files "
-    "(bound 2); each buffer the parser accepts is queried with the full universe incl. lines 0, 2^32 and 2^64-1 with overflow checks compiled in; every returned string must lie inside the buffer or the query. The valid file at address residues 1 / 2 / 4 (mod 8) and every field edit at residue 4 likewise.",
+    "(bound 2); each buffer the parser accepts is queried with the full universe incl. lines 0, 2^32 and 2^64-1 with overflow checks compiled in; every returned string must lie inside the buffer or the query. The valid file at address residues 1 / 2 / 4 (mod 8) and every field edit at residue 4 likewise; in files with <= 40 strings every name offset is redirected to every string start (incl. a 9-class table whose names share a 16-byte prefix).",
     "Trusted: rustc/std; overflow-checks/debug-assertions build profile; address-range check on returned slices. Debug/Display helpers and ProguardCache::test() are outside the property's list.", "DESIGN.md §4 C12")
 
 TEXT_NOTE = "Trusted: rustc/std. Bounded: the alphabets and depths listed in the evidence file; bytes outside the alphabets are not explored."
 add("C05", "E2 textspace", "model_checking", "bounded-exhaustive enumeration of record ASTs, their documented malformations and all short token strings, real parser vs AST / independent recogniser",
-    "Every record AST of a ~10^5-line space (all combinations of the optional groups, numbers 0..2^40, identifiers with $ < > - [] digits non-ASCII) is printed and parsed alone (4 terminators) and inside a file; the record must carry exactly the AST's parts. "
+    "Every record AST of a ~10^5-line space (all combinations of the optional groups, numbers 0..2^40, identifiers with $ < > - [] digits non-ASCII) is printed and parsed alone (4 terminators) and inside a file (LF, CRLF, lone CR, blank lines between; a qualified method also behind the class line of that very class); the record must carry exactly the AST's parts. "
     "Every documented malformation of those lines must be an error carrying the offending line. All strings of <=7 (thorough 8) tokens over a 12-token alphabet are judged by an independent recogniser of the documented grammar. Every corpus line alone vs in its file.",
     TEXT_NOTE + " The recogniser's NAME is deliberately narrow; outside it no claim is made.", "DESIGN.md §4 C05")
 add("C06", "E2 textspace", "model_checking", "bounded-exhaustive enumeration of byte strings, token strings and (A,B) pairs on the real record iterator; invariant + compositionality oracle",
     "All byte strings of length <=7 over 9 symbols, all strings of <=5 (thorough 6) tokens over 16 hostile tokens, every LF split of each, all pairs (A<=4 tokens, B<=2 tokens), and line-boundary splits of the corpus: "
-    "iteration ends within len+1 items without panic, no yielded string contains CR/LF, records(A+LF+B) = records(A)++records(B); iterator-protocol family (every file of <=4 lines over 8 line kinds x 4 terminators: positional access = repeated next(), clones, section(0..len)); has_line_info()/summary() equal the fold over the records behind 99..100000 malformed lines; every section(a..b) of four small texts with multi-byte characters iterates like a fresh mapping over those bytes; every yielded str is valid UTF-8.",
+    "iteration ends within len+1 items without panic, no yielded string contains CR/LF, records(A+LF+B) = records(A)++records(B); iterator-protocol family (every file of <=4 lines over 8 line kinds x 4 terminators: positional access = repeated next(), clones, section(0..len)); has_line_info()/summary() equal the fold over the records behind 99..100000 malformed lines; every section(a..b) of four small texts with multi-byte characters iterates like a fresh mapping over those bytes; every yielded str is valid UTF-8; every token string and a 7^4 boundary-numeral family also go through ProguardMapper::new and ProguardCache::write (the property's other observation points), which must not panic.",
     TEXT_NOTE + " Reading I3: zero-length error items are ignored. Corpus files > 100 kB are split at a stride of line boundaries (stated in the evidence).", "DESIGN.md §4 C06")
 add("C19", "E2 textspace", "model_checking", "bounded-exhaustive enumeration of files over a 14-line alphabet plus positional families, real metadata API vs an independent fold over the record stream",
-    "Every file of <=6 (thorough 7) lines over 14 line kinds (with and without final newline) and positional families around the 50-item window and late line-mapped methods: has_line_info, is_valid and the five summary fields must equal an independent fold over iter().",
+    "Every file of <=6 (thorough 7) lines over 14 line kinds (with and without final newline) and positional families around the 50-item window (incl. whitespace-only lines) and late line-mapped methods, almost-numeric header values, line mappings that point at original line 0 or start beyond 2^32: has_line_info, is_valid and the five summary fields must equal an independent fold over iter().",
     TEXT_NOTE + " The record stream itself is the subject of C05/C06.", "DESIGN.md §4 C19")
 
 add("C07", "E3 tracespace", "model_checking", "bounded-exhaustive enumeration of trace texts on the real mapper and cache vs a text model with an independent line classifier",
@@ -74,10 +74,10 @@ add("C08", "E3 tracespace", "model_checking", "bounded-exhaustive enumeration of
     "Every typed trace over 126 top levels and cause chains up to depth 3 (thorough 4) x 2 mappings x {mapper, cache}: same depth, every throwable remapped-or-identical, every frame expanded-or-identical, nothing dropped; and the printed typed result must equal the text API's output on the printed input. Plus with_parameters frames (21 triples incl. names in prefix relation with a '$' continuation), run-length traces, and two-frame traces at every line of a method with 16 / 32 ascending ranges and an enclosing range at every position; the mappings carry R8's indented metadata comments.",
     TEXT_NOTE + " Canonical printed form as stated in the evidence assumptions.", "DESIGN.md §4 C08")
 add("C16", "E3 tracespace", "model_checking", "bounded-exhaustive enumeration of descriptors, all their single-character edits and all short strings, real mapper and cache vs an independent JVM descriptor parser",
-    "All 1813 (thorough 42k) descriptors over a 6- (8-)type alphabet, each single-character deletion/substitution/insertion over a 10-character alphabet, and all strings of <=6 (7) characters, x 3 mappings x {mapper, cache}: valid descriptors must give exactly the R14 parameter list, return type and formatted signature; strings without parenthesised list / return type / with an unterminated object type must give none; mapper == cache on every string. Every answer is read through the accessors, format_signature() and Display; parameters_types() must satisfy the iterator protocol; handle-history and pair-sequence passes; class-table family (every ordered selection of <= 3 of 14 obfuscated class names differing in '.', '$', '-' or a non-ASCII character at one place, as class tables x a descriptor naming each); class names containing ', ' / blanks / ': ' / quotes / backslash.",
+    "All 1813 (thorough 42k) descriptors over a 6- (8-)type alphabet, each single-character deletion/substitution/insertion over a 10-character alphabet, and all strings of <=6 (7) characters, x 3 mappings x {mapper, cache}: valid descriptors must give exactly the R14 parameter list, return type and formatted signature; strings without parenthesised list / return type / with an unterminated object type must give none; mapper == cache on every string. Every answer is read through the accessors, format_signature() and Display; parameters_types() must satisfy the iterator protocol; handle-history and pair-sequence passes; class-table family (every ordered selection of <= 3 of 14 obfuscated class names differing in '.', '$', '-' or a non-ASCII character at one place, as class tables x a descriptor naming each); class names containing ', ' / blanks / ': ' / quotes / backslash / '$$'; every number of array dimensions 1..300.",
     TEXT_NOTE + " Trusted: descriptor parser + R14 in pgmc/src/props/c16.rs.", "DESIGN.md §4 C16")
 add("C17", "E3 tracespace", "model_checking", "bounded-exhaustive enumeration of traces, frames and throwables; real printer and parser; round-trip oracle",
-    "28 throwables x 180 frames (5 methods incl. ': ' and blank, 6 files incl. ') [' and ') ~[') x top-level present/absent x 0..2 frames x cause chains up to depth 3 (4): parse(print(t)) == t and print(parse(print(t))) == print(t); single frames (3 indentations) and throwables likewise; frames without file: text fix-point.",
+    "28 throwables x 180 frames (5 methods incl. ': ' and blank, 10 files incl. ') [', ') ~[', 'r8-map-id-...', 'Native Method'; 21 messages incl. trailing colons, 'null', frame-like endings - each also on a first-level cause line) x top-level present/absent x 0..2 frames x cause chains up to depth 3 (4): parse(print(t)) == t and print(parse(print(t))) == print(t); single frames (3 indentations) and throwables likewise; frames without file: text fix-point.",
     TEXT_NOTE + " Domain restrictions as in the evidence assumptions (taken from the statement).", "DESIGN.md §4 C17")
 
 add("C13", "E2 textspace", "model_checking", "bounded-exhaustive enumeration of hostile mappings (token strings + structured hostile numerals) and query strings through the whole real pipeline; totality oracle",
@@ -85,16 +85,16 @@ add("C13", "E2 textspace", "model_checking", "bounded-exhaustive enumeration of 
     "every string of <=6 (7) symbols over descriptor characters / trace tokens is used as signature / trace text. No panic (overflow checks compiled in), no Err. Parameter strings incl. unbalanced parentheses / multi-byte ends; the handle-history pass (second handle in recycled memory). A scale family (cause depth / frame count up to 200000, in a subprocess) is reported separately.",
     TEXT_NOTE + " Overflow checks and debug assertions compiled into the subject. Known finding K1 (typed-trace recursion at depth 200000) is listed in known_findings.txt.", "DESIGN.md §4 C13")
 add("C14", "E7 multiproc", "exploration", "exhaustive enumeration of inputs x a finite harness-owned set of hash seeds (separately started processes under a getrandom shim), byte-for-byte comparison",
-    "Every mapping of the scopes (all histories up to depth 4 (5), file-rule and name-table families, a wide family with >=6 keys per hash container, corpus) is serialised in 8 (24) separately started processes with owned hash seeds + 2 with OS seeds; in each process twice in a row, for every 64th input from two concurrent threads and at all 8 address residues, and for every 4th input after four writes that failed part-way on the same thread and through BufWriter (4 capacities) / Cursor / LineWriter sinks; all byte strings must be identical and as long as the header implies.",
+    "Every mapping of the scopes (all histories up to depth 4 (5), file-rule and name-table families, a wide family with >=6 keys per hash container, corpus) is serialised in 8 (24) separately started processes with owned hash seeds + 2 with OS seeds; in each process twice in a row, for every 64th input from two concurrent threads and at all 8 address residues, and for every 4th input after four writes that failed part-way on the same thread and through BufWriter (4 capacities) / Cursor / LineWriter sinks; one input is a 17 MiB mapping of 24000 classes and one of the processes is pinned to a single CPU; all byte strings must be identical and as long as the header implies.",
     "Trusted: rustc/std; the getrandom shim. The 2^128 seed space is not enumerable: seeds are a finite owned set (the evidence reports how many distinct iteration orders they produced); exhaustive is the input dimension.", "DESIGN.md §4 C14")
 add("C15", "E5 sinkfault", "fault_enumeration", "deviation-bounded exhaustive exploration of sink behaviours (run, record calls, branch on every later call) around the real writer",
-    "17 mappings (every padding site exercised / not) x every sink script with <=4 (5) deviations from 'accept everything' (short by 1/2/3/len-1 bytes, Ok(0), Interrupted, sticky hard error at any call) + uniform k-byte sinks k=1..16: success implies the accepted bytes are exactly the canonical file; a hard failure or Ok(0) implies an error; delivered bytes are always a prefix; short writes and interruptions alone never fail the write.",
+    "17 mappings (every padding site exercised / not) x every sink script with <=4 (5) deviations from 'accept everything' (short by 1/2/3/len-1 bytes, Ok(0), Interrupted, sticky or one-shot hard error, one-shot WouldBlock at any call) + uniform k-byte sinks k=1..16 (+ 37, 4095..4097, 65535, 65536) + subjects of 147..2341 classes (deviation bound 1 at every call) and 20000 / 40000 classes (deviation bound 1 at selected calls): success implies the accepted bytes are exactly the canonical file; a hard failure or Ok(0) implies an error; delivered bytes are always a prefix; short writes and interruptions alone never fail the write.",
     "Trusted: rustc/std; the scripted sink. Canonical = bytes written into a Vec by the same build.", "DESIGN.md §4 C15")
 add("C18", "E7 multiproc", "exploration", "exhaustive enumeration of a small input space x separately started processes, real uuid() vs an independent SHA-1 / RFC 4122 v5 implementation",
     "4430 inputs (all byte strings <=5 over {a,LF,CR,00,ff}; every length 0..200 and around every multiple of 64 up to 4 KiB; 1 MiB; corpus as is / CRLF / without final newline) compared with an independent SHA-1-based v5 computation (validated against FIPS 180 vectors), in the driver and in 6 (16) separately started processes, each starting with two threads racing on the lazily built namespace.",
     "Trusted: rustc/std; pgmc/src/sha1.rs. The function delegates to uuid/sha1_smol; weakest use of the technique in the set.", "DESIGN.md §4 C18")
 add("C20", "E6 sched", "model_checking", "exhaustive schedule exploration of real threads sharing one mapper/cache/mapping under three controlled schedulers: shuttle check_dfs and a baton scheduler over OS threads (scheduling point before every API step, all interleavings), and the wp scheduler (the shared objects are write-protected with mprotect; every store of the subject into them is a scheduling point inside the call, single-stepped via the x86 trap flag; preemption-bounded stateless DFS, bound 2 quick / 3 thorough); plus a run-time auto-trait gate and a call-history pass",
-    "Send+Sync table for 20 public handle/iterator/result types (a missing auto trait is a violation naming the type). All 256 ordered pairs of 16 API scripts x 3 steps, a section script (uuid / summary / has_line_info of sections of the shared mapping) against the mapping scripts, warm configurations (6 query kinds x {mapper, cache} x memo capacities 16..1024 (thorough 8..1024): a 1100-class handle first serves C distinct queries, then one thread re-asks the oldest while another asks new ones) + three 3-thread configurations (thorough: + all pairs x 5 steps, + 216 triples x 2 steps, six triples x 3 steps): every schedule is executed on fresh real objects and every thread must observe exactly what its script observes alone. wp reports how many locations of the shared objects are stored to during queries (0 on this tree: no thread can observe another one mid-call) and runs a canary (lost update on a racy counter must be found) in every run. A free-running OS-thread pass is labelled sampling.",
+    "Send+Sync table for 20 public handle/iterator/result types (a missing auto trait is a violation naming the type). All 256 ordered pairs of 16 API scripts x 3 steps, a section script (uuid / summary / has_line_info of sections of the shared mapping) against the mapping scripts, warm configurations (6 query kinds x {mapper, cache} x memo capacities 16..1024 (thorough 8..1024): a 1100-class handle first serves C distinct queries, then one thread re-asks the oldest while another asks new ones; capacity 0 = a fresh handle whose lazily built state races on first use) + three 3-thread configurations (thorough: + all pairs x 5 steps, + 216 triples x 2 steps, six triples x 3 steps): every schedule is executed on fresh real objects and every thread must observe exactly what its script observes alone. wp reports how many locations of the shared objects are stored to during queries (0 on this tree: no thread can observe another one mid-call) and runs a canary (lost update on a racy counter must be found) in every run. A free-running OS-thread pass and a contention pass (4 threads x 4000 queries per kind on a 1100-class handle, 8 threads on a 600-cause trace: the only reach into races on the subject's own statics) are labelled sampling.",
     "Trusted: rustc/std auto traits; shuttle 0.9.3; pgmc/src/wp.rs + Linux mprotect / x86-64 trap-flag semantics. wp does not intercept the subject's own statics / thread-locals (reached at call granularity by the history pass and the baton scheduler) and explores sequentially consistent interleavings only.", "DESIGN.md §4 C20, §11.7")
 
 manifest = {
